@@ -2,6 +2,7 @@ import Driver.Engine
 import Driver.Cg
 import Driver.Enc
 import Driver.Handlers
+import Driver.Mapper
 
 open Driver
 
@@ -11,6 +12,7 @@ def dispatch (comp : String) (toks : List String) : String :=
   else if comp == "enc" then handleEnc toks
   else if comp == "hcheck" then handleHCheck toks
   else if comp == "hfuzz" then handleHFuzz toks
+  else if comp == "mapper" then handleMapper toks
   else "bad-op"
 
 partial def loop (h : IO.FS.Stream) (out : IO.FS.Stream) : IO Unit := do
